@@ -9,7 +9,11 @@ META = dict(
                "twoDBC_kcyclic_rank_of", "twoDBC_kcyclic_rank_of_key", "twoDBC_kcyclic_vpid_of", "twoDBC_kcyclic_vpid_of_key",
                "twoDBC_kcyclic_data_of",
                "parsec_matrix_block_cyclic_kview", "kview_compute_m", "kview_compute_n", "twoDBC_kview_rank_of",
-               "twoDBC_kview_rank_of_key", "twoDBC_kview_vpid_of", "twoDBC_kview_vpid_of_key", "twoDBC_kview_data_of"],
+               "twoDBC_kview_rank_of_key", "twoDBC_kview_vpid_of", "twoDBC_kview_vpid_of_key", "twoDBC_kview_data_of",
+               "parsec_matrix_block_cyclic_band_init", "twoDBC_band_rank_of", "twoDBC_band_rank_of_key", "twoDBC_band_data_of",
+               "twoDBC_band_data_of_key", "twoDBC_band_vpid_of", "twoDBC_band_vpid_of_key",
+               "parsec_matrix_tabular_init", "parsec_matrix_tabular_set_table", "parsec_matrix_tabular_set_random_table",
+               "twoDTD_rank_of", "twoDTD_rank_of_key", "twoDTD_data_of", "twoDTD_data_of_key", "twoDTD_vpid_of", "twoDTD_vpid_of_key"],
     explanation="Harness-route contracts on the REAL two_dim_rectangle_cyclic.c, sym_two_dim_rectangle_cyclic.c, vector_two_dim_cyclic.c, "
                 "grid_2Dcyclic.c and matrix.c (all #included verbatim in one translation unit per distribution).  Each job fixes the "
                 "divisor-like parameters (P, Q, kp, kq, mb=nb, lmt, lnt) as constants and keeps myrank, the grid offsets ip<P, jq<Q, the "
@@ -26,9 +30,21 @@ META = dict(
                 "and inverse to the rank formula, vp_p*vp_q == nb_vp.  kview jobs: the same point contract (without closed form / key "
                 "round trip, a view permutes tiles) on parsec_matrix_block_cyclic_kview of a 1-cyclic descriptor.  sym.* : the same for the "
                 "stored triangle (uplo symbolic), tiles of the other triangle have no valid owner.  vector.diag.* : the same for the "
-                "diagonal vector distribution on square grids.  defect.* jobs isolate obligations that FAIL on the real code (genuine "
+                "diagonal vector distribution on square grids.  band.* : both block-cyclic collections are built as tests/collections/"
+                "two_dim_band does, then parsec_matrix_block_cyclic_band_init; rank_of equals the band (|m-n| < band_size, tile stored as "
+                "(m-n+band_size-1, n) on the band grid) or off-band closed form; data_of puts a local tile into a slot of the SAME "
+                "collection rank_of consulted (slot < that collection's nb_local_tiles, bytes inside that collection's storage, key of "
+                "the tile in that collection), distinct local tiles get distinct (collection, slot) pairs and disjoint bytes; the "
+                "_of_key variants agree; key2coords inverts data_key of the band collection.  tabular.table.* : init + set_table on a "
+                "symbolic valid table (heap object): owners kept, local entries get pairwise distinct slots 0..nb_local_tiles-1 and one "
+                "tile-sized block each, nb_local_tiles equals the number of owned tiles, rank_of is the table entry (< nodes), data_of / "
+                "data_of_key hand out slot, block and key of the tile, vpid in range.  tabular.random.* : set_random_table with rand_r "
+                "stubbed as any value in [0, RAND_MAX): every entry is a valid rank, local vpid in range.  defect.* jobs isolate obligations that FAIL on the real code (genuine "
                 "defects, demonstrated natively, see native/): the row / column / non-square-diagonal cases of the vector distribution.  "
-                "(The key stored by twoDBC_kcyclic_data_of was a third one: found by the key clauses, fixed in /repo 39f87f9, now passing.)",
+                "(The key stored by twoDBC_kcyclic_data_of was a third one: found by the key clauses, fixed in /repo 39f87f9, now passing.)  "
+                "Observation (not a finding of this configuration): with rand_r allowed to return RAND_MAX itself (POSIX; harness built with "
+                "-DC20_RAND_R_POSIX) the two set_random_table obligations fail (rank == nodes, vpid == nb_vp); glibc's rand_r never does "
+                "(native/rand_r_max_search.c enumerates its 2^32 states).",
     trusted_base=["stub parsec_data_create: records (holder slot address, key, pointer, size) in ghost variables, returns a dummy data",
                   "stub parsec_data_collection_init: sets nodes, myrank, clears the method pointers (real one memsets the object)",
                   "stub parsec_vpmap_get_nb_vp: the job's constant NBVP (1,2,3,4,5,6,7,8 over the jobs)",
@@ -36,12 +52,20 @@ META = dict(
                   "stubs parsec_matrix_define_datatype / parsec_type_free / asprintf: succeed without effect",
                   "CBMC's model of ceilf/sqrtf (constant-folded for the constant NBVP) and of calloc",
                   "slot index / byte offset are recovered from the recorded addresses by integer subtraction from data_map / mat",
-                  "meta-step: injective + range + count equality => bijection onto the nb_local_tiles slots"],
+                  "meta-step: injective + range + count equality => bijection onto the nb_local_tiles slots",
+                  "stub parsec_data_allocate (tabular): hands out consecutive tile-sized blocks of a static arena, counts calls and wrong sizes",
+                  "rand_r (tabular.random), stubbed with the contract: returns any value of [0, RAND_MAX) per call, independent of the seed "
+                  "(never RAND_MAX itself: glibc, enumerated natively)"],
     assumptions=["parameters inside the enumerated box; sizes small enough that i+m, lm*ln, nb_local_tiles*bsiz do not overflow (huge matrices not claimed)",
                  "tile coordinates passed to rank_of / data_of are inside the submatrix (the code's own asserts m < mt, n < nt), data_of / vpid_of are "
                  "called only for local tiles (the code's assert under DISTRIBUTED)",
                  "the user attaches local storage of nb_local_tiles * mb*nb * sizeof(type) bytes (what every test of the repository allocates)",
-                 "symmetric: the submatrix starts on the diagonal (i == j); vector: diagonal distribution, square process grid"],
+                 "symmetric: the submatrix starts on the diagonal (i == j); vector: diagonal distribution, square process grid",
+                 "band: square matrix, the two member collections initialised by parsec_matrix_block_cyclic_init with the shapes used by "
+                 "tests/collections/two_dim_band (off-band lt x lt, band (2*band_size-1) x lt), same number of nodes",
+                 "tabular: set_table receives a table whose owners are < nodes and whose vpids are in [0, nb_vp) (user input)",
+                 "rand_r never returns RAND_MAX (glibc: checked exhaustively over all 2^32 states, spec/C20/native/rand_r_max_search.c; "
+                 "largest value RAND_MAX-2); not guaranteed by POSIX"],
 )
 
 # (P, Q, kp, kq, mb(=nb), lmt, lnt)
@@ -65,6 +89,13 @@ VEC_POINT_Q = [(3, 3, 2, 8, 2)]
 VEC_POINT_T = [(2, 2, 1, 7, 2), (4, 4, 3, 12, 2), (1, 1, 2, 5, 2)]
 VEC_COUNT_Q = [(2, 2, 2, 7, 2)]
 VEC_COUNT_T = [(3, 3, 1, 11, 2), (4, 4, 2, 12, 2)]
+# band: (P, Q, kp, kq,  band P, Q, kp, kq,  mb, lt, band_size)
+BAND_Q = [(2, 3, 1, 1, 3, 2, 1, 1, 2, 6, 2)]
+BAND_T = [(2, 2, 2, 1, 4, 1, 1, 2, 1, 7, 3), (3, 2, 1, 1, 1, 6, 1, 1, 2, 8, 1), (4, 3, 2, 2, 2, 6, 1, 3, 1, 8, 2), (1, 1, 1, 1, 1, 1, 1, 1, 3, 5, 3)]
+TAB_Q = [(3, 2, 3, 2)]
+TAB_T = [(16, 1, 4, 3), (1, 2, 2, 2), (5, 3, 2, 5), (2, 2, 6, 2)]
+TABR_Q = [(3, 2, 2, 2, 4)]       # (nodes, mb, lmt, lnt, nb_vp)
+TABR_T = [(16, 1, 3, 2, 7), (1, 2, 2, 3, 1)]
 
 
 def tname(t):
@@ -176,18 +207,44 @@ def jobs(tier):
                      unwind=10, bounded=bnd, timeout=600, functions=VF, min_obligations=10))
         J.append(Job("defect.vector_rowcol.row.count.P1Q3", "h_vector.c", entry="h_vec_count", defines=vd((1, 3, 2, 8, 0)),
                      unwind=10, bounded=bnd, timeout=600, functions=VF[:2], min_obligations=2))
+    # ---- band distribution: (P, Q, kp, kq,  band P, Q, kp, kq,  mb, lt, band_size)
+    BF = ["parsec_matrix_block_cyclic_band_init", "twoDBC_band_rank_of", "twoDBC_band_rank_of_key", "twoDBC_band_data_of",
+          "twoDBC_band_data_of_key", "twoDBC_band_vpid_of", "twoDBC_band_vpid_of_key"]
+    for t in BAND_Q + (BAND_T if full else []):
+        J.append(Job("band.point.P%dQ%d.k%dx%d.bP%dQ%d.k%dx%d.mb%d.lt%d.bs%d" % t, "h_band.c", entry="h_band_point",
+                     defines=dict(GP=t[0], GQ=t[1], KP=t[2], KQ=t[3], BP=t[4], BQ=t[5], BKP=t[6], BKQ=t[7], MB=t[8], LT=t[9], BS=t[10],
+                                  NBVP=(2, 4, 6)[len(J) % 3]),
+                     unwind=t[9] + 2, bounded=bnd + "; band: square matrix, band_size <= 3, both collections as in tests/collections/two_dim_band",
+                     timeout=900, functions=BF, min_obligations=18))
+    # ---- tabular distribution: (nodes, mb, lmt, lnt)
+    TF = ["parsec_matrix_tabular_init", "parsec_matrix_tabular_set_table", "twoDTD_rank_of", "twoDTD_rank_of_key", "twoDTD_data_of",
+          "twoDTD_data_of_key", "twoDTD_vpid_of", "twoDTD_vpid_of_key"]
+    tb = "tabular: table of lmt x lnt <= %d tiles with symbolic contents, nodes <= 16, stored size a multiple of the tile size" % (12 if full else 6)
+    for t in TAB_Q + (TAB_T if full else []):
+        J.append(Job("tabular.table.n%d.mb%d.%dx%d" % t, "h_tabular.c", entry="h_tab_table",
+                     defines=dict(NODES=t[0], MB=t[1], LMT=t[2], LNT=t[3], NBVP=4), unwind=t[2] * t[3] + 2, bounded=tb,
+                     timeout=900, functions=TF, min_obligations=18))
+    for t in TABR_Q + (TABR_T if full else []):
+        d = dict(NODES=t[0], MB=t[1], LMT=t[2], LNT=t[3], NBVP=t[4])
+        J.append(Job("tabular.random.n%d.mb%d.%dx%d.vp%d" % t, "h_tabular.c", entry="h_tab_random", defines=d,
+                     unwind=t[2] * t[3] + 2, bounded=tb + "; rand_r < RAND_MAX (glibc)", timeout=900,
+                     functions=["parsec_matrix_tabular_set_random_table", "parsec_matrix_tabular_set_table"], min_obligations=3))
     return J
 
 
 MANIFEST = dict(
     category="other",
-    text="Bounded-box evidence, not a proof: for each enumerated tuple of divisor-like parameters (quick 18 jobs, thorough ~85 jobs inside "
+    text="Bounded-box evidence, not a proof: for each enumerated tuple of divisor-like parameters (quick 21 jobs, thorough ~94 jobs inside "
          "P,Q<=4, kp,kq<=3, mb<=3, lmt,lnt<=12) CBMC discharges, on the real init / rank_of / data_of / vpid_of / key functions and for every "
          "rank, grid offset, stored size, submatrix and pair of tiles, that each tile has one valid owner given by the block-cyclic closed form, "
          "local tiles get pairwise distinct in-range slots, disjoint in-range byte ranges and distinct keys that map back to their coordinates, "
          "the local tile count of init equals the number of owned tiles, and vpid is in range; for 2D block-cyclic (1-cyclic, k-cyclic, k-view), "
-         "symmetric, and the diagonal vector distribution on square grids.  Category other: the tuple set samples the box, it does not cover it.",
-    note="NOT decided: band and tabular distributions (no harness); LAPACK storage (slm/sln, leading-dimension addressing) ; element types other than "
+         "symmetric, the diagonal vector distribution on square grids, the band distribution (delegation to band / off-band collection consistent "
+         "between rank_of and data_of) and the tabular distribution (set_table, set_random_table, access functions).  Category other: the tuple set samples the box, it does not cover it.",
+    note="NOT decided: band: no count clause (both member collections are over-allocated by design), sym band variant "
+         "(sym_two_dim_rectangle_cyclic_band.c) not covered; tabular: set_user_table, clone_table_structure, destroy not covered, set_random_table only "
+         "under 'rand_r < RAND_MAX' (observation, portability hazard: a libc whose rand_r can return RAND_MAX makes set_random_table produce "
+         "rank == nodes / vpid == nb_vp; the __WINDOWS__ branch divides by RAND_MAX+1, the POSIX branch by RAND_MAX); LAPACK storage (slm/sln, leading-dimension addressing) ; element types other than "
          "8 bytes; tuples of the box that are not enumerated and everything outside it (overflow for huge matrices); parsec_tiled_matrix_submatrix; "
          "vector row/column distributions and diagonal on non-square grids FAIL (genuine defects, known findings, jobs defect.vector_*).  Stubs: parsec_data_create (recording), parsec_vpmap_get_nb_vp, "
          "parsec_type_size, datatype creation.",
